@@ -4,6 +4,7 @@ import TenpyModel.C06.ListProofs
 import TenpyModel.C06.LegProofs
 import TenpyModel.C06.LegOpsProofs
 import TenpyModel.C06.PipeProofs
+import TenpyModel.C06.PipeMapProofs
 /-!
 # C06 — "Leg fusion is a lossless, consistently ordered bijection": property theorems
 
@@ -229,3 +230,110 @@ theorem C06_qmap_slices (legs : List Leg) (qconj : Int) (sort bunch : Bool) :
 
 example : exPipe.qMapSlices = [0, 1, 5, 7, 9] ∧ exPipeN.qMapSlices = List.range 10 ∧
     exPipe1.qMapSlices = [0, 1] := by decide
+
+/-- **ind_len** of a pipe is the product of the incoming `ind_len`s -/
+theorem C06_pipe_indlen (legs : List Leg) (hs : ∀ l ∈ legs, l.Shape) (qconj : Int) (sort bunch : Bool) :
+    (Pipe.init legs qconj sort bunch).leg.indLen = (legs.map Leg.indLen).prod ∧
+      (Pipe.init legs qconj sort bunch).leg.Shape :=
+  ⟨Pipe.indLen_prod legs qconj sort bunch hs, Pipe.leg_shape legs qconj sort bunch⟩
+
+example : exPipe.leg.indLen = 16 ∧ exPipeN.leg.indLen = 16 ∧ exPipe1.leg.indLen = 6 := by decide
+
+/-- **outer_conj** keeps the fusion rule with the same incoming legs and the opposite outgoing
+direction; `q_map`, `q_map_slices`, `_perm`, `_strides`, the slices — hence the whole index map —
+are untouched. -/
+theorem C06_outerConj_fusion (legs : List Leg) (qconj : Int) (sort bunch : Bool) :
+    let p := Pipe.init legs qconj sort bunch
+    p.outerConj.legs = legs ∧ p.outerConj.leg.qconj = -qconj ∧ p.outerConj.qMap = p.qMap ∧
+    p.outerConj.leg.slices = p.leg.slices ∧
+    (∀ idx, p.outerConj.mapIncomingFlat idx = p.mapIncomingFlat idx) ∧
+    ∀ j, j < p.outerConj.qMap.length →
+      p.outerConj.leg.charges.getD ((p.outerConj.qMap.getD j []).getD 2 0) [] =
+        Pipe.fuse p.outerConj.leg.mods legs (-qconj) ((p.outerConj.qMap.getD j []).drop 3) := by
+  intro p
+  refine ⟨Pipe.init_legs legs qconj sort bunch, ?_, rfl, rfl, fun _ => rfl, ?_⟩
+  · show -(Pipe.init legs qconj sort bunch).leg.qconj = -qconj
+    rw [(Pipe.init_mods_qconj legs qconj sort bunch).2]
+  · intro j hj
+    show _ = Pipe.fuse (Pipe.init legs qconj sort bunch).leg.mods legs (-qconj) _
+    rw [(Pipe.init_mods_qconj legs qconj sort bunch).1]
+    exact Pipe.outerConj_fusion legs qconj sort bunch j hj
+
+example : exPipe.outerConj.leg.charges = [[0, 0], [3, 2], [2, 1], [1, 1]] ∧
+    exPipe.outerConj.leg.charges ≠ exPipe.leg.charges := by decide
+
+/-- **map_incoming_flat is a bijection** between in-range index tuples of the incoming legs and
+`[0, ind_len)` of the outgoing leg, and it respects charges.  For all legs of the right shape, any
+number of legs, either outgoing direction, sort/bunch on or off:
+
+1. every in-range tuple `xs` is mapped to some `f < ind_len`, and the charge attached to `f` in
+   the outgoing leg is the fused charge of the charges attached to the `xs[l]`
+   (`make_valid(qconj * Σ_l legs[l].qconj * legs[l].to_qflat()[xs[l]])`);
+2. the map is injective on in-range tuples;
+3. it is onto: the images of all tuples, listed in C order, are a permutation of `0 … ind_len-1`.
+
+(Negative Python indices are reduced to this case by `C06_getQindex_neg`.) -/
+theorem C06_mapIncomingFlat_bijective (legs : List Leg) (hs : ∀ l ∈ legs, l.Shape) (qconj : Int)
+    (sort bunch : Bool) :
+    let p := Pipe.init legs qconj sort bunch
+    (∀ xs, InRange xs p.subshape →
+      ∃ f, p.mapIncomingFlat (xs.map Int.ofNat) = some f ∧ f < p.leg.indLen ∧
+        p.leg.toQflat.getD f [] = Pipe.fuseFlat p.leg.mods legs qconj xs) ∧
+    (∀ xs ys, InRange xs p.subshape → InRange ys p.subshape →
+      p.mapIncomingFlat (xs.map Int.ofNat) = p.mapIncomingFlat (ys.map Int.ofNat) → xs = ys) ∧
+    ((gridC p.subshape).map (fun xs => (p.mapIncomingFlat (xs.map Int.ofNat)).getD 0)).Perm
+      (List.range p.leg.indLen) := by
+  intro p
+  have hsub : p.subshape = legs.map Leg.indLen := by
+    show (Pipe.init legs qconj sort bunch).legs.map Leg.indLen = _
+    rw [Pipe.init_legs]
+  have hmods : p.leg.mods = Pipe.gMods legs := (Pipe.init_mods_qconj legs qconj sort bunch).1
+  rw [hsub, hmods]
+  exact ⟨fun xs hx => Pipe.mapIncomingFlat_spec legs qconj sort bunch hs xs hx,
+    fun xs ys hx hy e => Pipe.mapIncomingFlat_inj legs qconj sort bunch hs xs ys hx hy e,
+    Pipe.mapIncomingFlat_perm legs qconj sort bunch hs⟩
+
+/-- negative flat indices count from the end (`get_qindex`), so the statement above covers them -/
+theorem C06_getQindex_neg (l : Leg) (x : Nat) (hx : x < l.indLen) :
+    l.getQindex ((x : Int) - l.indLen) = l.getQindex (x : Int) := Leg.getQindex_neg l x hx
+
+example : InRange [3, 1] exPipe.subshape ∧ exPipe.mapIncomingFlat [3, 1] = some 6 ∧
+    exPipe.leg.toQflat.getD 6 [] = [-3, 1] ∧ Pipe.fuseFlat [1, 3] [exLeg3, exLeg2] 1 [3, 1] = [-3, 1] ∧
+    exPipe.mapIncomingFlat [-1, -3] = some 6 := by decide
+
+example : (gridC exPipe.subshape).map (fun xs => (exPipe.mapIncomingFlat (xs.map Int.ofNat)).getD 0) =
+    [2, 3, 4, 14, 8, 10, 11, 0, 9, 12, 13, 1, 5, 6, 7, 15] := by decide
+
+/-- the same in terms of **physical charges** (`make_valid(qconj * charge)`): the physical charge
+at `map_incoming_flat(xs)` is the reduced sum of the physical charges of the incoming indices. -/
+theorem C06_mapIncomingFlat_phys (legs : List Leg) (hs : ∀ l ∈ legs, l.Shape) (qconj : Int)
+    (hq : qconj = 1 ∨ qconj = -1) (sort bunch : Bool) (xs : List Nat) :
+    let p := Pipe.init legs qconj sort bunch
+    InRange xs p.subshape →
+    ∃ f, p.mapIncomingFlat (xs.map Int.ofNat) = some f ∧
+      p.leg.physQflat.getD f [] =
+        makeValid p.leg.mods (csum p.leg.mods.length
+          ((legs.zip xs).map (fun lx => cscale lx.1.qconj (lx.1.toQflat.getD lx.2 [])))) := by
+  intro p hx
+  obtain ⟨f, hf, hlt, hc⟩ := (C06_mapIncomingFlat_bijective legs hs qconj sort bunch).1 xs hx
+  refine ⟨f, hf, ?_⟩
+  have hsh : p.leg.Shape := Pipe.leg_shape legs qconj sort bunch
+  unfold Leg.physQflat
+  rw [getD_map' _ _ f [] [] (by rw [hsh.toQflat_length]; exact hlt), hc,
+    (Pipe.init_mods_qconj legs qconj sort bunch).2]
+  exact Pipe.fuseFlat_phys _ legs qconj xs hq
+
+/-- **the pipe passes `test_sanity`**: for well-formed incoming legs over the same `chinfo`, the
+outgoing leg satisfies the class invariant and its `sorted` / `bunched` flags are truthful. -/
+theorem C06_pipe_sane (legs : List Leg) (hw : ∀ l ∈ legs, l.WF)
+    (hm : ∀ l ∈ legs, l.mods = (legs.headD (Leg.fromTrivial 1 [] 1)).mods) (qconj : Int)
+    (hq : qconj = 1 ∨ qconj = -1) (sort bunch : Bool) :
+    (Pipe.init legs qconj sort bunch).leg.WF ∧ (Pipe.init legs qconj sort bunch).leg.sane = true :=
+  Pipe.leg_WF_sane legs qconj sort bunch hw hm hq
+
+example : exPipe.leg.sane = true ∧ exPipeN.leg.sane = true ∧ exPipe1.leg.sane = true ∧
+    exPipe.outerConj.leg.sane = true := by decide
+
+/-- `outer_conj` acts on the outgoing leg exactly as `flip_charges_qconj`, so `C06_flip_phys` and
+`C06_flip_sane` apply to it: physical charges of all outgoing indices are unchanged. -/
+theorem C06_outerConj_leg (p : Pipe) : p.outerConj.leg = p.leg.flipChargesQconj := rfl
